@@ -190,36 +190,47 @@ func (e *enum) Run(i int64, r *vf.Rec) {
 	}
 	r.Count("histories_checked", 1)
 	if len(h) == 0 {
-		// causality: every truncation point, every replacement tail (constant tails of every letter, and the other probe word)
-		full := inputsFor(p.tbl, p.word())
-		for t := 1; t < T; t++ {
-			check := func(kind string, seq []int) bool {
-				o := sim.Catalog[p.tbl.Model]()
-				mrun.Configure(o, mrun.Col(p.params()))
-				res := mrun.RunOn(o, inputsFor(p.tbl, seq), len(seq), nil)
-				r.Count("causality_runs", 1)
-				for k := range res.Out {
-					for u := 0; u < t; u++ {
-						if math.Float64bits(res.Out[k][u]) != math.Float64bits(got.Out[k][u]) {
-							r.Failf(fmt.Sprintf("C14/%s/output-depends-on-later-input/%s", p.tbl.Model, kind), map[string]interface{}{"t": t, "step": u, "inputs_full": full, "sequence": seq, "full_outputs": got.Out, "outputs": res.Out},
-								"%s: output at step %d changes when inputs after step %d are %s", p.tbl.Model, u, t, kind)
-							return false
+		// causality: every truncation point, every replacement tail (a constant tail of every letter), from the
+		// model-initialised state and from a warmed-up (non-zero) state, for the probe word's own prefixes and for
+		// every constant-letter prefix (which includes quiet spells: zero load with and without flow)
+		wobj := sim.Catalog[p.tbl.Model]()
+		mrun.Configure(wobj, mrun.Col(p.params()))
+		warm := mrun.RunOn(wobj, inputsFor(p.tbl, other.word()), T, nil).States // same parameters (state layout), the other input word
+		for _, init := range [][]float64{nil, warm} {
+			for t := 1; t < T; t++ {
+				prefixes := [][]int{p.word()[:t]}
+				for l := range p.tbl.Letters {
+					c := make([]int, t)
+					for u := range c {
+						c[u] = l
+					}
+					prefixes = append(prefixes, c)
+				}
+				for pk, prefix := range prefixes {
+					run := func(seq []int) mrun.Result {
+						o := sim.Catalog[p.tbl.Model]()
+						mrun.Configure(o, mrun.Col(p.params()))
+						r.Count("causality_runs", 1)
+						return mrun.RunOn(o, inputsFor(p.tbl, seq), len(seq), init)
+					}
+					ref := run(prefix)
+					for l := range p.tbl.Letters {
+						seq := append([]int{}, prefix...)
+						for u := t; u < T; u++ {
+							seq = append(seq, l)
+						}
+						res := run(seq)
+						for k := range res.Out {
+							for u := 0; u < t; u++ {
+								if math.Float64bits(res.Out[k][u]) != math.Float64bits(ref.Out[k][u]) {
+									kind := map[bool]string{true: "probe-word-prefix", false: "constant-prefix"}[pk == 0] + map[bool]string{true: "/model-initialised-state", false: "/warmed-up-state"}[init == nil]
+									r.Failf(fmt.Sprintf("C14/%s/output-depends-on-later-input/%s", p.tbl.Model, kind), map[string]interface{}{"t": t, "step": u, "prefix": prefix, "sequence": seq, "init_states": init, "outputs_truncated_run": ref.Out, "outputs": res.Out},
+										"%s: output at step %d differs between the run truncated after step %d and the run continued with letter %d", p.tbl.Model, u, t, l)
+									return
+								}
+							}
 						}
 					}
-				}
-				return true
-			}
-			w := p.word()
-			if !check("truncated", w[:t]) {
-				return
-			}
-			for l := range p.tbl.Letters {
-				seq := append(append([]int{}, w[:t]...), make([]int, T-t)...)
-				for u := t; u < T; u++ {
-					seq[u] = l
-				}
-				if !check("replaced", seq) {
-					return
 				}
 			}
 		}
@@ -276,7 +287,7 @@ func Spec() *vf.Check {
 	return &vf.Check{
 		ID: "C14", Level: "model_checking", BlockSize: 64, Sub: sub, Pre: pre,
 		Rule: "explicit enumeration of run histories: for each of 82 probes (41 models x 2 configurations, T=5) every history of 0..2 (thorough: 0..3) earlier runs over a 10-operation alphabet {same object same config, same object other config (ApplyParameters again), fresh object of the same model, a model of each of the 7 packages} followed by the probe; oracle = the probe run first, in a fresh process, on a fresh object (each baseline computed in two separate processes). " +
-			"Causality for every probe: every truncation point t in 1..4 and every replacement of the inputs after t by a constant tail of every letter. distinct_nontrivial = histories whose probe matched the baseline.",
+			"Causality for every probe: from the model-initialised and from a warmed-up state, for the probe word's prefixes and for every constant-letter prefix, every truncation point t in 1..4 and every replacement of the inputs after t by a constant tail of every letter. distinct_nontrivial = histories whose probe matched the baseline.",
 		Assumptions: []string{"history depth 2 (thorough 3) before the probe; one probe word per configuration", "package-level state that only a third kind of earlier run could set is not reached"},
 		Build:       func(tier string) vf.Enumeration { return build(tier) },
 		Finish: func(tier string, m *vf.Merged, cov map[string]interface{}) {
